@@ -254,7 +254,8 @@ func (c *FCGIClient) writePairs(recType uint8, pairs map[string]string) error {
 	b := make([]byte, 8)
 	nn := 0
 	for k, v := range pairs {
-		m := 8 + len(k) + len(v)
+		// size of the encoded pair (each length takes 1 or 4 bytes)
+		m := encodeSize(b, uint32(len(k))) + encodeSize(b, uint32(len(v))) + len(k) + len(v)
 		if m > maxWrite {
 			// param data size exceed 65535 bytes"
 			vl := maxWrite - 8 - len(k)
